@@ -13,20 +13,14 @@ import (
 	"go.lstv.dev/util/sem"
 	"go.lstv.dev/util/size"
 	"go.lstv.dev/util/uu"
+	"verif/libdefaults"
 	"verif/mc"
 )
 
 var defaults = map[string]int{"date": 10, "roman": 128, "sem": 1024, "size": 128, "uu": 45}
 
 func reset() {
-	date.MaxInputLength, date.Formatter, date.Parser = 10, date.DefaultFormatter, date.DefaultParser[[]byte]
-	roman.MaxInputLength, roman.DefaultFormat, roman.Formatter, roman.Parser = 128, 0, roman.DefaultFormatter, roman.DefaultParser[[]byte]
-	sem.MaxInputLength, sem.Formatter, sem.Parser = 1024, sem.DefaultFormatter, sem.DefaultParser[[]byte]
-	sem.ComparePreRelease = sem.DefaultComparePreRelease[string, string]
-	size.MaxInputLength, size.MaxObjectKeys, size.Formatter, size.Parser = 128, 16, size.DefaultFormatter, size.DefaultParser[[]byte]
-	size.DefaultRule = size.RuleEnableJSONStringForm | size.RuleEnableJSONObjectForm
-	size.DisableMarshalTextUnit, size.DisableMarshalJSONStringForm, size.DisableMarshalJSONObjectForm = false, false, false
-	uu.MaxInputLength, uu.Formatter, uu.Parser = 45, uu.DefaultFormatter, uu.DefaultParser[[]byte]
+	libdefaults.All()
 }
 
 // limit mode: 0 default, 1 disabled (0), 2 one, 3 default+1
@@ -43,6 +37,10 @@ func limitFor(pkg string, mode int) int {
 }
 
 func setLimits(mode int) {
+	if mode == 0 { // default configuration: whatever the library starts with (the oracle assumes the documented defaults)
+		libdefaults.All()
+		return
+	}
 	date.MaxInputLength = limitFor("date", mode)
 	roman.MaxInputLength = limitFor("roman", mode)
 	sem.MaxInputLength = limitFor("sem", mode)
@@ -164,7 +162,7 @@ type limChangeArg struct {
 	Entry  int    `json:"entry"`
 	Name   string `json:"entry_name"`
 	In     mc.Bin `json:"in"`
-	First  int    `json:"first_limit"`  // absolute MaxInputLength values
+	First  int    `json:"first_limit"` // absolute MaxInputLength values
 	Second int    `json:"second_limit"`
 }
 
@@ -310,11 +308,11 @@ func main() {
 		r.Assume("a panic inside any entry point is caught per execution and reported with the input; 'runaway allocation' is decided as bytes allocated per call <= 8 MiB + 512 x len(input), measured in a serial phase")
 		r.Assume("two-input helpers: too-long is required when the first text is over the limit; when only the second is, any error is accepted (the first may be invalid for another reason)")
 		tokens := map[string][]string{
-			"date":  {"2024", "-", "02", "29", "0", "9", "a", "\x00", "\x80", "\xff", "é", "€", "😀", " ", "\n", "13", "00"},
-			"roman": {"M", "CM", "D", "c", "x", "IV", "i", "v", "a", "0", "\x00", "\x80", "\xff", "é", "ſ", "K", "😀", " "},
-			"sem":   {"1", "0", ".", "-", "+", "v", "a", "01", "1.0.0", "\x00", "\x80", "\xff", "é", "€", "😀", " ", "\n", "18446744073709551616"},
-			"size":  {"1", "0", " ", "_", " ", "\xa0", "kB", "KiB", "B", "{", "}", "\"", ":", ",", "\"value\"", "\"unit\"", "[", "]", "\\", "\x00", "\xff", "é", "😀", "-", ".", "e", "null"},
-			"uu":    {"0", "a", "F", "g", "-", "urn:uuid:", "URN:", "\x00", "\x80", "\xff", "é", "😀", "ed7059f3-6fc0-4b0c-9b7a-2ea5a0b4b8f1", "ed7059f3", "-6fc0-4b0c-9b7a-", "2ea5a0b4b8f1"},
+			"date":  {"2024", "-", "02", "29", "0", "9", "a", "\x00", "\x80", "\xff", "\xc2", "\xe2\x80", "é", "€", "😀", " ", "\n", "13", "00"},
+			"roman": {"M", "CM", "D", "c", "x", "IV", "i", "v", "a", "0", "\x00", "\x80", "\xff", "\xc2", "\xe2\x80", "é", "ſ", "K", "😀", " "},
+			"sem":   {"1", "0", ".", "-", "+", "v", "a", "01", "1.0.0", "\x00", "\x80", "\xff", "\xc2", "\xe2\x80", "é", "€", "😀", " ", "\n", "18446744073709551616"},
+			"size":  {"1", "0", " ", "_", " ", "\xa0", "kB", "KiB", "B", "{", "}", "\"", ":", ",", "\"value\"", "\"unit\"", "[", "]", "\\", "\x00", "\xff", "\xc2", "\xe2\x80", "é", "😀", "-", ".", "e", "null"},
+			"uu":    {"0", "a", "F", "g", "-", "urn:uuid:", "URN:", "\x00", "\x80", "\xff", "\xc2", "\xe2\x80", "é", "😀", "ed7059f3-6fc0-4b0c-9b7a-2ea5a0b4b8f1", "ed7059f3", "-6fc0-4b0c-9b7a-", "2ea5a0b4b8f1"},
 		}
 		maxTok := 3
 		if !r.Quick() {
@@ -367,7 +365,7 @@ func main() {
 			"date":  {"2024-02-29", "20240229", "123456789-12-31", "1234567891231"},
 			"roman": {"MMMCMXCIX", "mmmdccclxxxviii", "MDCCCCLXXXXVIIII"},
 			"sem":   {"v1.2.3-rc.1+build.5", "18446744073709551615.0.0-a.b", "1.0.0-0.3.7+exp.sha.5114f85"},
-			"size":  {"1 024 KiB", `{"value":1,"unit":"KiB","x":[1,{"a":null}]}`, `"18 446 744 073 709 551 615 B"`, "16EiB", `{"x":[[1],2],"value":1,"unit":"KiB"}`, `{"y":{"a":[[],{}]},"unit":"B","value":0}`},
+			"size":  {"12", "1024", "7 B", "1 024 KiB", `{"value":1,"unit":"KiB","x":[1,{"a":null}]}`, `"18 446 744 073 709 551 615 B"`, "16EiB", `{"x":[[1],2],"value":1,"unit":"KiB"}`, `{"y":{"a":[[],{}]},"unit":"B","value":0}`},
 			"uu":    {"urn:uuid:ed7059f3-6fc0-4b0c-9b7a-2ea5a0b4b8f1", "URN:uuid:ED7059F3-6FC0-4B0C-9B7A-2EA5A0B4B8F1", "ed7059f3-6fc0-4b0c-9b7a-2ea5a0b4b8f1"},
 		}
 		for _, mode := range []int{0, 1, 3} {
